@@ -163,6 +163,7 @@ std::vector<EnvVal> g_attr_inputs, g_attr_small, g_svc_inputs;
 std::map<const void *, std::set<std::string>> g_seen;  // per list: strings already added
 void add(std::vector<EnvVal> &v, const std::string &s) {
   if (s.find('\0') != std::string::npos) return;
+  if (v.size() >= 59000) return;  // a pick has at most 60000 alternatives
   if (!g_seen[&v].insert(s).second) return;
   v.push_back({true, s});
 }
